@@ -106,6 +106,11 @@ static bool attempt(Result& R, Call* c, const Scen& sc, F&& call, bool expect_st
     if (nthrown) { R.stat("calls_with_throw"); R.stat("throws." + std::string(site_name[sc.site]), nthrown); }
     if (nthrown >= 2) R.stat("calls_with_concurrent_throws");
     if (nthrown) { R.nontrivial++; R.signature(mix(std::hash<std::string>{}(sc.construct + site_name[sc.site] + sc.params), mix(nthrown, std::min(c->bodies.load(), 40)))); }
+    if (nthrown && ok && R.want_sample()) {
+        Json j; j.obj(); j.kv("construct", sc.construct); j.kv("throwing_site", site_name[sc.site]); j.kv("params", sc.params); j.kv("exceptions_thrown", nthrown);
+        j.kv("caught_id", caught); j.key("thrown_ids").arr(); { std::lock_guard<std::mutex> l(c->m); for (int t : c->thrown) j.val(t); } j.end_arr();
+        j.kv("bodies_run", c->bodies.load()); j.kv("bodies_live_at_catch", live_now); j.end_obj(); R.sample(j.s);
+    }
     progress();
     return ok;
 }
